@@ -271,6 +271,22 @@ ADDED4 = {
  "C20": "Editor actor replacing an input file; real db2bed and create_index under the scheduler; scenarios bed-rewrite-vs-cached-reader, gtf-rewritten-during-conversion, index-clean-start-vs-cached, index-two-fresh.",
 }
 
+ADDED5 = {
+ "C01": "Annotation nested-two-clusters (gene nested in the host's last intron, reads forming two clusters).",
+ "C03": "MIX structures C3 (unannotated third chromosome), E1 (models with 1-bp exons), X3 (a known isoform supported by two full-length paths), B9 (bulge with a 9-bp exon).",
+ "C04": "Structures B9 and E1.",
+ "C05": "MAPQ matrix kinds intronic, near (+bridging read), inter3a / near3a (aligned polyA tail exon).",
+ "C07": "w10's earlier run uses another release of the annotation under the same file name; group name with a leading blank in the table worlds.",
+ "C09": "Four-field file: option.",
+ "C10": "Joint runs of 3 and 5 (thorough: 6, 7) experiments.",
+ "C13": "long-locus world at the real constants (known finding).",
+ "C14": "A terminal move is allowed only through the correction that applies to the read's deviation.",
+ "C16": "Exact expectation for external tail positions found in the soft clip.",
+ "C17": "A known isoform supported by two full-length paths.",
+ "C18": "undecided_sites_world (antisense novel isoforms decided by polyT only).",
+ "C20": "O_EXCL and blocking waits with livelock detection; scenarios failing-run-vs-valid, bed-of-replaced-db, reference-replaced-during-indexing; conversion entered through convert_gtf_to_db.",
+}
+
 
 def main():
     props = [json.loads(l) for l in open(os.path.join(HERE, "properties.jsonl"))]
@@ -280,7 +296,7 @@ def main():
         pid = p["id"]
         if pid in CHECKS:
             level, tech, text, note, ref = CHECKS[pid]
-            text = text + ADDED.get(pid, "") + (" " + ADDED2[pid] if pid in ADDED2 else "") + (" " + ADDED3[pid] if pid in ADDED3 else "") + (" " + ADDED4[pid] if pid in ADDED4 else "")
+            text = text + ADDED.get(pid, "") + (" " + ADDED2[pid] if pid in ADDED2 else "") + (" " + ADDED3[pid] if pid in ADDED3 else "") + (" " + ADDED4[pid] if pid in ADDED4 else "") + (" " + ADDED5[pid] if pid in ADDED5 else "")
             checks.append({
                 "property_id": pid,
                 "quick_cmd": "./check %s --tier quick" % pid,
